@@ -43,7 +43,7 @@ MANIFEST = dict(
 
 INVS = ["IsCase", "Conforms", "PConfigRight", "PNoSpuriousFailure", "PFailureReaches", "PPanicRule",
         "PFreshPerProduct", "POncePerFactory"]
-NEGS = ["PluginRegistry_neg_shareddefault.cfg", "PluginRegistry_neg_typeonly.cfg", "PluginRegistry_neg_mapcopy.cfg", "PluginRegistry_neg_cache.cfg", "PluginRegistry_neg_nodefault.cfg",
+NEGS = ["PluginRegistry_neg_typeonly.cfg", "PluginRegistry_neg_mapcopy.cfg", "PluginRegistry_neg_cache.cfg", "PluginRegistry_neg_nodefault.cfg",
         "PluginRegistry_neg_panic.cfg"]
 
 
@@ -51,8 +51,7 @@ def case_sig(c):
     return ("reg=%s ret=%s cfg=%s cerr=%s ferr=%s dflt=%s form=%s fail=%s nested=%s shape=%s calls=%s mutate=%s" % (
         c["reg"], c["ret"], c["cfg"], int(c["cerr"]), int(c["ferr"]), int(c["dflt"]), c["form"], c["fail"], c["nested"],
         c["shape"], "1" if c["calls"] == 1 else ">=2", int(c["mutate"])) +
-            ("" if (c.get("user", "set"), c.get("dv", "valid")) == ("set", "valid") else " user=%s defaults=%s" % (c["user"], c["dv"])) +
-            (" shared-default-pointer" if c.get("dsh") else ""))
+            ("" if (c.get("user", "set"), c.get("dv", "valid")) == ("set", "valid") else " user=%s defaults=%s" % (c["user"], c["dv"])))
 
 
 def validate(v, obs_path, rows, workers=8):
